@@ -66,4 +66,15 @@ PROPS["C03"] = {
     "assumptions": [],
 }
 
+PROPS["C11"] = {
+    "modules": ["Foundation.Proofs.C11"],
+    "facts": True,
+    "level_text": "Machine-checked decision logic of the entry points: batch execution and the five transfer-robot functions reach their bodies only for a certificate whose key id or hash equals the configured robot value; Init only for an admin-OU certificate; the admin-only methods take effect only for the configured admin address; a method disabled by name or by the swap/multi-swap switch is never reached or recorded on the direct, batched and task routes; missing configuration or an unparsable creator refuses everything. The switch skeleton (case order, guarded cases, returning cases, place of the disabled test, its two call sites) is re-extracted from the source each run and checked by decide. Tied to the code by the matrix entry point x identity x configuration x route x sender through Invoke, with the router's real method table fed to the model.",
+    "level_note": "Trusted: Lean kernel + 3 axioms; x509/ECDSA parsing; response classes are derived from error texts (coarse); the model is the hand transcription of Invoke/TasksExecutor after fix bbe070f checked by the differential run; issuer/fee-setter role checks are outside this property.",
+    "trusted_base": ["core/cc_core_init_invoke.go Invoke switch modelled by Dispatch.invoke; skeleton facts re-extracted per run", "hlfcreator (x509 parsing) modelled as abstract Creator"],
+    "hypotheses": [],
+    "not_modelled": ["execution of an already pending record whose method was disabled afterwards (not among the three routes of the statement)"],
+    "assumptions": [],
+}
+
 NOT_APPLICABLE = {}
